@@ -91,6 +91,7 @@ type vfC17Rig struct {
 	closeErr  int32 // != 0: the sockets' Close() reports an error
 	lockDead  int32 // != 0: pool.mu could not be taken for a long time (somebody deadlocked holding it)
 	lockSig   string
+	fillStuck int32 // != 0: pool.filling stayed true with no fill in progress
 	inDial    int32
 	lastEv    int64 // unix nano of the last hook / dial activity
 	calls     sync.WaitGroup
@@ -424,6 +425,12 @@ func (r *vfC17Rig) runFree(quiet time.Duration, max time.Duration) bool {
 		if !filling && atomic.LoadInt32(&r.inDial) == 0 && idle > quiet {
 			return true
 		}
+		// nobody dials, nothing has moved for ten times the longest pause of a fill (fillingStopped sleeps at
+		// most 131 ms), yet the pool still says "filling": the flag will never be reset
+		if filling && atomic.LoadInt32(&r.inDial) == 0 && idle > 1500*time.Millisecond {
+			atomic.StoreInt32(&r.fillStuck, 1)
+			return false
+		}
 		if time.Now().After(deadline) {
 			return false
 		}
@@ -548,8 +555,14 @@ func vfC17RunSchedule(sess *Session, d *vfC17Dialer, cl *vfCluster, sch *vfC17Sc
 		}
 	}
 	quiet := 40 * time.Millisecond
+	var stuck *vfC17Rec
 	if !r.runFree(quiet, 10*time.Second) && atomic.LoadInt32(&r.lockDead) == 0 {
-		herr = fmt.Errorf("schedule %d did not become quiescent: %s", sch.N, r.proj())
+		if atomic.LoadInt32(&r.fillStuck) != 0 {
+			p := r.proj()
+			stuck = &vfC17Rec{Sched: sch.N, Ev: "h_fill_stuck", Size: sch.Size, Closed: p.Closed, Conns: p.Conns, Open: p.Open, Dead: []int{}}
+		} else {
+			herr = fmt.Errorf("schedule %d did not become quiescent: %s", sch.N, r.proj())
+		}
 	}
 	var end, fin vfC17Rec
 	if atomic.LoadInt32(&r.lockDead) == 0 {
@@ -583,6 +596,9 @@ func vfC17RunSchedule(sess *Session, d *vfC17Dialer, cl *vfCluster, sch *vfC17Sc
 	for _, e := range r.sc.tr.Events() {
 		a, _ := e["a"].(int)
 		recs = append(recs, vfC17Rec{Sched: sch.N, Ev: e["ev"].(string), Obj: 1, A: a, Size: sch.Size, Conns: []int{}, Open: []int{}, Dead: []int{}})
+	}
+	if stuck != nil {
+		recs = append(recs, *stuck)
 	}
 	if divergence != "" {
 		recs = append(recs, vfC17Rec{Sched: sch.N, Ev: "h_diverged", Size: sch.Size, Conns: []int{}, Open: []int{}, Dead: []int{}, Q: divergence})
